@@ -658,13 +658,366 @@ Proof.
           cbn [app] in Hs'. rewrite <- !app_assoc in Hs'. cbn [app]. split; [exact Hs'|].
           split; [constructor; assumption|]. split; [exact Hi' | lia]. }
     destruct inm.
-    + apply (Hbatch st prog batch); auto. rewrite Hs, <- app_assoc. reflexivity.
+    + apply (Hbatch st prog batch); [reflexivity | reflexivity | exact Hinv | | reflexivity | exact H].
+      rewrite Hs, <- app_assoc. reflexivity.
     + destruct prog as [|q p]; [apply Hsingle; [reflexivity | exact H]|].
       destruct q; try (apply Hsingle; [reflexivity | exact H]).
       (* MARK opens a batch *)
       rewrite (Hbat eq_refl) in *.
-      apply (Hbatch (push OMark st) p []); auto.
+      apply (Hbatch (push OMark st) p []); [| reflexivity | | | reflexivity | exact H].
       * apply run_step_next. reflexivity.
       * apply inv_push; [exact Hinv | reflexivity].
       * cbn. rewrite Hs. reflexivity.
+Qed.
+
+(** * dict batches *)
+
+Lemma flatten_app : forall a b, flatten (a ++ b) = (flatten a ++ flatten b)%list.
+Proof. intros. unfold flatten. apply flat_map_app. Qed.
+
+Lemma forallb_flatten : forall n ps, forallb (ids_below n) (flatten ps) = true ->
+  forallb (fun kv => ids_below n (fst kv) && ids_below n (snd kv)) ps = true.
+Proof.
+  intros n. induction ps as [|[k v] r IH]; cbn; [auto|]. intro H.
+  apply andb_true_iff in H. destruct H as [Hk H]. apply andb_true_iff in H. destruct H as [Hv H].
+  rewrite Hk, Hv, (IH H). reflexivity.
+Qed.
+
+Lemma hashable_atoms : forall xs, forallb hashable (map obj_of_atom xs) = true.
+Proof. induction xs as [|a r IH]; cbn; [reflexivity|]. rewrite hashable_atom. exact IH. Qed.
+
+Lemma dict_step_common : forall cs st i prev ps below ka kb,
+  inv cs st -> forallb (ids_below (next st)) (flatten ps) = true ->
+  forallb (ids_below (next st)) (ODict i prev :: below) = true ->
+  map fst prev = map obj_of_atom ka -> map fst ps = map obj_of_atom kb -> nodup_atoms (ka ++ kb) = true ->
+  forallb (ids_below i) below = true ->
+  dict_set_all ps prev = Some (prev ++ ps)%list /\
+  stack (mutate i (ODict i (prev ++ ps)) (set_stack st (ODict i prev :: below))) = ODict i (prev ++ ps) :: below /\
+  inv cs (mutate i (ODict i (prev ++ ps)) (set_stack st (ODict i prev :: below))).
+Proof.
+  intros cs st i prev ps below ka kb Hinv Hps Hst Hka Hkb Hnd Hb. split; [|split].
+  - apply dict_set_all_fresh; [rewrite Hkb; apply hashable_atoms|].
+    rewrite Hka, Hkb, <- map_app, nodup_keys_atoms. exact Hnd.
+  - apply (mutate_stack i _ _ (ODict i prev) below); [reflexivity | | exact Hb].
+    cbn [subst]. rewrite Nat.eqb_refl. reflexivity.
+  - apply inv_mutate; [apply inv_set_stack_sub; assumption|].
+    cbn [forallb ids_below] in Hst. apply andb_true_iff in Hst. destruct Hst as [Ht _].
+    apply andb_true_iff in Ht. destruct Ht as [Hl Hp].
+    cbn [ids_below set_stack next]. rewrite Hl, forallb_app, Hp, (forallb_flatten _ _ Hps). reflexivity.
+Qed.
+
+Lemma setitems_step : forall w cs st i prev ps below ka kb,
+  inv cs st -> ps <> [] -> existsb is_mark (flatten ps) = false ->
+  stack st = (rev (flatten ps) ++ OMark :: ODict i prev :: below)%list ->
+  map fst prev = map obj_of_atom ka -> map fst ps = map obj_of_atom kb -> nodup_atoms (ka ++ kb) = true ->
+  forallb (ids_below i) below = true ->
+  exists st', step w st SETITEMS = SNext st' /\ stack st' = ODict i (prev ++ ps) :: below /\
+              next st' = next st /\ inv cs st'.
+Proof.
+  intros w cs st i prev ps below ka kb Hinv Hne Hm Hs Hka Hkb Hnd Hb.
+  pose proof Hinv as [[Hst _] _]. rewrite Hs in Hst. apply forallb_app_split in Hst. destruct Hst as [Hit Hst].
+  rewrite forallb_rev' in Hit. cbn [forallb] in Hst. apply andb_true_iff in Hst. destruct Hst as [_ Hst].
+  destruct (dict_step_common cs st i prev ps below ka kb Hinv Hit Hst Hka Hkb Hnd Hb) as [Hd [Hs' Hi']].
+  eexists. split; [|split; [exact Hs' | split; [reflexivity | exact Hi']]].
+  cbn [step]. unfold with_mark. rewrite Hs, (to_mark_rev _ _ Hm). unfold do_setitems. cbn [pop1 is_mark].
+  destruct (flatten ps) as [|x r] eqn:E; [destruct ps as [|[k v] ps']; [contradiction | discriminate]|].
+  rewrite <- E, pairs_of_flatten, Hd. reflexivity.
+Qed.
+
+Lemma setitem_step : forall w cs st i prev k v below ka a,
+  inv cs st -> is_mark v = false ->
+  stack st = v :: obj_of_atom a :: ODict i prev :: below -> k = obj_of_atom a ->
+  map fst prev = map obj_of_atom ka -> nodup_atoms (ka ++ [a]) = true ->
+  forallb (ids_below i) below = true ->
+  exists st', step w st SETITEM = SNext st' /\ stack st' = ODict i (prev ++ [(k, v)]) :: below /\
+              next st' = next st /\ inv cs st'.
+Proof.
+  intros w cs st i prev k v below ka a Hinv Hm Hs Hk Hka Hnd Hb. subst k.
+  pose proof Hinv as [[Hst _] _]. rewrite Hs in Hst. cbn [forallb] in Hst.
+  apply andb_true_iff in Hst. destruct Hst as [Hv Hst]. apply andb_true_iff in Hst. destruct Hst as [Hk Hst].
+  destruct (dict_step_common cs st i prev [(obj_of_atom a, v)] below ka [a] Hinv) as [Hd [Hs' Hi']];
+    try assumption; try reflexivity.
+  { cbn. rewrite Hk, Hv. reflexivity. }
+  eexists. split; [|split; [exact Hs' | split; [reflexivity | exact Hi']]].
+  cbn [step]. rewrite Hs. cbn [pop1]. rewrite Hm. cbn [pop1]. rewrite (is_mark_atom a).
+  unfold do_setitems. cbn [pop1 is_mark pairs_of]. rewrite Hd. reflexivity.
+Qed.
+
+Lemma kitems_sound : forall w chkf (kvs : list (atom * pv)), Forall (fun kv => member_sound w chkf (snd kv)) kvs ->
+  forall inm cs prog cs' rest st i prev batch below ka kb,
+  kitems_gen chkf kvs inm cs prog = Some (cs', rest) -> inv cs st ->
+  stack st = ((if inm then rev (flatten batch) ++ [OMark] else []) ++ ODict i prev :: below)%list ->
+  (inm = false -> batch = []) -> existsb is_mark (flatten batch) = false ->
+  map fst prev = map obj_of_atom ka -> map fst batch = map obj_of_atom kb ->
+  nodup_atoms (ka ++ kb ++ map fst kvs) = true ->
+  forallb (ids_below i) below = true -> i < next st ->
+  exists ps st', run w st prog = run w st' rest /\ stack st' = ODict i (prev ++ batch ++ ps) :: below /\
+     Forall2 (fun p kv => fst p = obj_of_atom (fst kv) /\ decode (snd p) = Some (snd kv)) ps kvs /\
+     inv cs' st' /\ next st <= next st'.
+Proof.
+  intros w chkf kvs HF. induction HF as [|[k x] r Hx Hr IH];
+    intros inm cs prog cs' rest st i prev batch below ka kb H Hinv Hs Hbat Hmk Hka Hkb Hnd Hb Hlt; cbn [kitems_gen] in H.
+  - destruct inm; [discriminate|]. inversion H; subst cs' rest. rewrite (Hbat eq_refl) in *. cbn [app] in *.
+    exists [], st. rewrite !app_nil_r.
+    split; [reflexivity|]. split; [exact Hs|]. split; [constructor|]. split; [exact Hinv | lia].
+  - cbn [snd] in Hx. cbn [map fst] in Hnd.
+    assert (Hbatch : forall st0 p0,
+              run w st prog = run w st0 p0 -> next st0 = next st -> inv cs st0 ->
+              stack st0 = (rev (flatten batch) ++ OMark :: ODict i prev :: below)%list ->
+              match chk_atom k cs p0 with
+              | Some (cs2, p2) =>
+                  match chkf x cs2 p2 with
+                  | Some (cs3, p3) => match p3 with
+                                      | SETITEMS :: p4 => kitems_gen chkf r false cs3 p4
+                                      | _ => kitems_gen chkf r true cs3 p3
+                                      end
+                  | None => None
+                  end
+              | None => None
+              end = Some (cs', rest) ->
+              exists ps st', run w st prog = run w st' rest /\ stack st' = ODict i (prev ++ batch ++ ps) :: below /\
+                Forall2 (fun p kv => fst p = obj_of_atom (fst kv) /\ decode (snd p) = Some (snd kv)) ps ((k, x) :: r) /\
+                inv cs' st' /\ next st <= next st').
+    { intros st0 p0 Hr0 Hn0 Hi0 Hs0 H0.
+      destruct (chk_atom k cs p0) as [[cs2 p2]|] eqn:Ek; [|discriminate].
+      destruct (atom_sound w k cs p0 cs2 p2 st0 Ek Hi0) as [sta [Hra [Hsa [Hna Hia]]]].
+      destruct (chkf x cs2 p2) as [[cs3 p3]|] eqn:E; [|discriminate].
+      destruct (Hx cs2 p2 cs3 p3 E sta Hia) as [o [st1 [Hr1 [Hs1 [Hd1 [Hm1 [_ [Hi1 Hn1]]]]]]]].
+      set (batch1 := (batch ++ [(obj_of_atom k, o)])%list).
+      assert (Hs1' : stack st1 = (rev (flatten batch1) ++ OMark :: ODict i prev :: below)%list).
+      { unfold batch1. rewrite Hs1, Hsa, Hs0, flatten_app, rev_app_distr. reflexivity. }
+      assert (Hmk1 : existsb is_mark (flatten batch1) = false).
+      { unfold batch1. rewrite flatten_app, existsb_app, Hmk. cbn. rewrite is_mark_atom, Hm1. reflexivity. }
+      assert (Hkb1 : map fst batch1 = map obj_of_atom (kb ++ [k])).
+      { unfold batch1. rewrite !map_app, Hkb. reflexivity. }
+      assert (Hopen : kitems_gen chkf r true cs3 p3 = Some (cs', rest) ->
+                exists ps st', run w st prog = run w st' rest /\ stack st' = ODict i (prev ++ batch ++ ps) :: below /\
+                  Forall2 (fun p kv => fst p = obj_of_atom (fst kv) /\ decode (snd p) = Some (snd kv)) ps ((k, x) :: r) /\
+                  inv cs' st' /\ next st <= next st').
+      { intro H'.
+        destruct (IH true cs3 p3 cs' rest st1 i prev batch1 below ka (kb ++ [k]) H' Hi1) as [ps [st' [Hr' [Hs' [Hd' [Hi' Hn']]]]]].
+        - rewrite Hs1', <- app_assoc. reflexivity.
+        - discriminate.
+        - exact Hmk1.
+        - exact Hka.
+        - exact Hkb1.
+        - rewrite <- app_assoc. exact Hnd.
+        - exact Hb.
+        - lia.
+        - exists ((obj_of_atom k, o) :: ps), st'. split; [rewrite Hr0, Hra, Hr1; exact Hr'|].
+          unfold batch1 in Hs'. rewrite <- app_assoc in Hs'. split; [exact Hs'|].
+          split; [constructor; [split; [reflexivity | exact Hd1] | exact Hd']|]. split; [exact Hi' | lia]. }
+      destruct p3 as [|q p4]; [apply Hopen; exact H0|].
+      destruct q; try (apply Hopen; exact H0).
+      destruct (setitems_step w cs3 st1 i prev batch1 below ka (kb ++ [k]) Hi1) as [st2 [Hst2 [Hs2 [Hn2 Hi2]]]].
+      + unfold batch1. destruct batch; discriminate.
+      + exact Hmk1.
+      + exact Hs1'.
+      + exact Hka.
+      + exact Hkb1.
+      + apply (nodup_atoms_prefix _ (map fst r)). rewrite <- !app_assoc. exact Hnd.
+      + exact Hb.
+      + destruct (IH false cs3 p4 cs' rest st2 i (prev ++ batch1) [] below (ka ++ kb ++ [k]) [] H0 Hi2)
+          as [ps [st' [Hr' [Hs' [Hd' [Hi' Hn']]]]]].
+        * exact Hs2.
+        * reflexivity.
+        * reflexivity.
+        * rewrite map_app, Hka, Hkb1, <- map_app. reflexivity.
+        * reflexivity.
+        * cbn [app]. rewrite <- !app_assoc. exact Hnd.
+        * exact Hb.
+        * lia.
+        * exists ((obj_of_atom k, o) :: ps), st'.
+          split; [rewrite Hr0, Hra, Hr1, (run_step_next w st1 SETITEMS st2 p4 Hst2); exact Hr'|].
+          unfold batch1 in Hs'. cbn [app] in Hs'. rewrite <- !app_assoc in Hs'. split; [exact Hs'|].
+          split; [constructor; [split; [reflexivity | exact Hd1] | exact Hd']|]. split; [exact Hi' | lia]. }
+    assert (Hsingle : inm = false ->
+              match chk_atom k cs prog with
+              | Some (cs2, p2) =>
+                  match chkf x cs2 p2 with
+                  | Some (cs3, p3) => match p3 with SETITEM :: p4 => kitems_gen chkf r false cs3 p4 | _ => None end
+                  | None => None
+                  end
+              | None => None
+              end = Some (cs', rest) ->
+              exists ps st', run w st prog = run w st' rest /\ stack st' = ODict i (prev ++ batch ++ ps) :: below /\
+                Forall2 (fun p kv => fst p = obj_of_atom (fst kv) /\ decode (snd p) = Some (snd kv)) ps ((k, x) :: r) /\
+                inv cs' st' /\ next st <= next st').
+    { intros Einm H0. subst inm. rewrite (Hbat eq_refl) in *. cbn [app] in Hs. cbn [map] in Hkb.
+      assert (Ekb : kb = []) by (destruct kb; [reflexivity | discriminate]). subst kb. cbn [app] in Hnd.
+      destruct (chk_atom k cs prog) as [[cs2 p2]|] eqn:Ek; [|discriminate].
+      destruct (atom_sound w k cs prog cs2 p2 st Ek Hinv) as [sta [Hra [Hsa [Hna Hia]]]].
+      destruct (chkf x cs2 p2) as [[cs3 p3]|] eqn:E; [|discriminate].
+      destruct p3 as [|q p4]; [discriminate|]. destruct q; try discriminate.
+      destruct (Hx cs2 p2 cs3 _ E sta Hia) as [o [st1 [Hr1 [Hs1 [Hd1 [Hm1 [_ [Hi1 Hn1]]]]]]]].
+      destruct (setitem_step w cs3 st1 i prev (obj_of_atom k) o below ka k Hi1 Hm1) as [st2 [Hst2 [Hs2 [Hn2 Hi2]]]].
+      + rewrite Hs1, Hsa, Hs. reflexivity.
+      + reflexivity.
+      + exact Hka.
+      + apply (nodup_atoms_prefix _ (map fst r)). rewrite <- app_assoc. exact Hnd.
+      + exact Hb.
+      + destruct (IH false cs3 p4 cs' rest st2 i (prev ++ [(obj_of_atom k, o)]) [] below (ka ++ [k]) [] H0 Hi2)
+          as [ps [st' [Hr' [Hs' [Hd' [Hi' Hn']]]]]].
+        * exact Hs2.
+        * reflexivity.
+        * reflexivity.
+        * rewrite !map_app, Hka. reflexivity.
+        * reflexivity.
+        * cbn [app]. rewrite <- app_assoc. exact Hnd.
+        * exact Hb.
+        * lia.
+        * exists ((obj_of_atom k, o) :: ps), st'.
+          split; [rewrite Hra, Hr1, (run_step_next w st1 SETITEM st2 p4 Hst2); exact Hr'|].
+          cbn [app] in Hs'. rewrite <- !app_assoc in Hs'. cbn [app]. split; [exact Hs'|].
+          split; [constructor; [split; [reflexivity | exact Hd1] | exact Hd']|]. split; [exact Hi' | lia]. }
+    destruct inm.
+    + apply (Hbatch st prog); [reflexivity | reflexivity | exact Hinv | | exact H].
+      rewrite Hs, <- app_assoc. reflexivity.
+    + destruct prog as [|q p]; [apply Hsingle; [reflexivity | exact H]|].
+      destruct q; try (apply Hsingle; [reflexivity | exact H]).
+      rewrite (Hbat eq_refl) in *.
+      apply (Hbatch (push OMark st) p); [| reflexivity | | | exact H].
+      * apply run_step_next. reflexivity.
+      * apply inv_push; [exact Hinv | reflexivity].
+      * cbn. rewrite Hs. reflexivity.
+Qed.
+
+(** * the cases of the main theorem *)
+
+Definition vres (w : world) (v : pv) (cs' : cstate) (st : state) (prog rest : list op) : Prop :=
+  exists o st', run w st prog = run w st' rest /\ stack st' = o :: stack st /\ decode o = Some v /\
+    is_mark o = false /\ (idfree v = true -> o = canon_obj v) /\ inv cs' st' /\ next st <= next st'.
+
+Lemma get_case : forall w v cs p r st,
+  (match get_index p with Some i => chk_get cs v i | None => false end) = true -> inv cs st ->
+  vres w v cs st (p :: r) r.
+Proof.
+  intros w v cs p r st Eg Hinv. destruct (get_index p) as [i|] eqn:Ei; [|discriminate].
+  destruct (get_sound w cs v i st p Ei Eg Hinv) as [Hs Hf].
+  exists (canon_obj v), (push (canon_obj v) st).
+  split; [apply run_step_next; exact Hs|]. split; [reflexivity|]. split; [apply canon_decode; exact Hf|].
+  split; [apply noids_not_mark; apply canon_noids; exact Hf|]. split; [reflexivity|].
+  split; [apply inv_push; [exact Hinv | apply canon_below; exact Hf] | cbn; lia].
+Qed.
+
+Lemma atom_case : forall w a cs prog cs' rest st,
+  chk_atom a cs prog = Some (cs', rest) -> inv cs st -> vres w (PAtom a) cs' st prog rest.
+Proof.
+  intros w a cs prog cs' rest st H Hinv.
+  destruct (atom_sound w a cs prog cs' rest st H Hinv) as [st' [Hr [Hs [Hn Hi]]]].
+  exists (obj_of_atom a), st'. split; [exact Hr|]. split; [exact Hs|]. split; [apply decode_obj_of_atom|].
+  split; [apply is_mark_atom|]. split; [reflexivity|]. split; [exact Hi | lia].
+Qed.
+
+(* an object has just been pushed by one step; an optional put follows *)
+Lemma pushed_then_put : forall w v cs p r cs' rest st st1 o,
+  step w st p = SNext st1 -> stack st1 = o :: stack st -> next st <= next st1 -> inv cs st1 ->
+  chk_put cs v r = Some (cs', rest) ->
+  decode o = Some v -> is_mark o = false -> (idfree v = true -> o = canon_obj v) ->
+  vres w v cs' st (p :: r) rest.
+Proof.
+  intros w v cs p r cs' rest st st1 o Hstep Hs1 Hn1 Hi1 Hput Hd Hm Hc.
+  destruct (put_sound w cs v r cs' rest st1 o (stack st) Hput Hi1 Hs1 Hm Hc) as [st2 [Hr2 [Hs2 [Hn2 Hi2]]]].
+  exists o, st2. split; [rewrite (run_step_next w st p st1 r Hstep); exact Hr2|].
+  split; [rewrite Hs2; exact Hs1|]. split; [exact Hd|]. split; [exact Hm|]. split; [exact Hc|]. split; [exact Hi2 | lia].
+Qed.
+
+Lemma put_after : forall w v prog p1 cs1 cs' rest st st1 o,
+  run w st prog = run w st1 p1 -> stack st1 = o :: stack st -> next st <= next st1 -> inv cs1 st1 ->
+  chk_put cs1 v p1 = Some (cs', rest) ->
+  decode o = Some v -> is_mark o = false -> (idfree v = true -> o = canon_obj v) ->
+  vres w v cs' st prog rest.
+Proof.
+  intros w v prog p1 cs1 cs' rest st st1 o Hrun Hs1 Hn1 Hi1 Hput Hd Hm Hc.
+  destruct (put_sound w cs1 v p1 cs' rest st1 o (stack st) Hput Hi1 Hs1 Hm Hc) as [st2 [Hr2 [Hs2 [Hn2 Hi2]]]].
+  exists o, st2. split; [rewrite Hrun; exact Hr2|].
+  split; [rewrite Hs2; exact Hs1|]. split; [exact Hd|]. split; [exact Hm|]. split; [exact Hc|]. split; [exact Hi2 | lia].
+Qed.
+
+Lemma Forall2_decode_length : forall os (xs : list pv), Forall2 (fun o v => decode o = Some v) os xs ->
+  List.length os = List.length xs.
+Proof. intros os xs H. induction H; cbn; [reflexivity | rewrite IHForall2; reflexivity]. Qed.
+
+Lemma tuple_case : forall w xs, Forall (member_sound w chk) xs ->
+  forall cs prog cs' rest st, chk (PTuple xs) cs prog = Some (cs', rest) -> inv cs st ->
+  vres w (PTuple xs) cs' st prog rest.
+Proof.
+  intros w xs HF cs prog cs' rest st H Hinv. destruct prog as [|p r]; [discriminate|]. cbn [chk] in H.
+  destruct (match get_index p with Some i => chk_get cs (PTuple xs) i | None => false end) eqn:Eg.
+  { inversion H; subst. apply get_case; assumption. }
+  (* what is common once the tuple object is on the stack *)
+  assert (Hfin : forall cs1 p1 st1 os, run w st (p :: r) = run w st1 p1 -> stack st1 = OTuple os :: stack st ->
+            next st <= next st1 -> inv cs1 st1 -> Forall2 (fun o v => decode o = Some v) os xs ->
+            (forallb idfree xs = true -> os = map canon_obj xs) ->
+            chk_put cs1 (PTuple xs) p1 = Some (cs', rest) -> vres w (PTuple xs) cs' st (p :: r) rest).
+  { intros cs1 p1 st1 os Hrun Hs1 Hn1 Hi1 Hd Hc Hput.
+    apply (put_after w (PTuple xs) (p :: r) p1 cs1 cs' rest st st1 (OTuple os)); try assumption.
+    - rewrite decode_tuple_eq, (all_some_map_decode _ _ Hd). reflexivity.
+    - reflexivity.
+    - intro Hf. cbn [idfree] in Hf. cbn [canon_obj]. rewrite (Hc Hf). reflexivity. }
+  (* TUPLE1 / TUPLE2 / TUPLE3 *)
+  assert (Hsmall : match seq_gen chk xs cs (p :: r) with
+                   | Some (cs1, TUPLE1 :: p1) => if Nat.eqb (List.length xs) 1 then chk_put cs1 (PTuple xs) p1 else None
+                   | Some (cs1, TUPLE2 :: p1) => if Nat.eqb (List.length xs) 2 then chk_put cs1 (PTuple xs) p1 else None
+                   | Some (cs1, TUPLE3 :: p1) => if Nat.eqb (List.length xs) 3 then chk_put cs1 (PTuple xs) p1 else None
+                   | _ => None
+                   end = Some (cs', rest) -> vres w (PTuple xs) cs' st (p :: r) rest).
+  { intro H0. destruct (seq_gen chk xs cs (p :: r)) as [[cs1 pp]|] eqn:Es; [|discriminate].
+    destruct (seq_sound w chk xs HF cs (p :: r) cs1 pp st Es Hinv) as [os [st1 [Hr1 [Hs1 [Hd1 [Hm1 [Hc1 [Hi1 Hn1]]]]]]]].
+    pose proof (Forall2_decode_length _ _ Hd1) as Hlen.
+    destruct pp as [|q p1]; [discriminate|]. destruct q; try discriminate.
+    - (* TUPLE1 *) destruct (Nat.eqb (List.length xs) 1) eqn:El; [|discriminate]. apply Nat.eqb_eq in El.
+      rewrite El in Hlen. destruct os as [|a [|b os']]; try discriminate.
+      cbn in Hm1. apply orb_false_iff in Hm1. destruct Hm1 as [Ma _].
+      set (st2 := set_stack st1 (OTuple [a] :: stack st)).
+      apply (Hfin cs1 p1 st2 [a]); try assumption.
+      + rewrite Hr1. apply run_step_next. cbn [step]. rewrite Hs1. cbn [rev app pop1]. rewrite Ma. reflexivity.
+      + reflexivity.
+      + cbn. lia.
+      + apply inv_set_stack_sub; [exact Hi1|]. destruct Hi1 as [[Hst _] _]. rewrite Hs1 in Hst. cbn in Hst. cbn. exact Hst.
+    - (* TUPLE2 *) destruct (Nat.eqb (List.length xs) 2) eqn:El; [|discriminate]. apply Nat.eqb_eq in El.
+      rewrite El in Hlen. destruct os as [|a [|b [|c os']]]; try discriminate.
+      cbn in Hm1. apply orb_false_iff in Hm1. destruct Hm1 as [Ma Hm1]. apply orb_false_iff in Hm1. destruct Hm1 as [Mb _].
+      set (st2 := set_stack st1 (OTuple [a; b] :: stack st)).
+      apply (Hfin cs1 p1 st2 [a; b]); try assumption.
+      + rewrite Hr1. apply run_step_next. cbn [step]. rewrite Hs1. cbn [rev app pop1]. rewrite Mb. cbn [pop1]. rewrite Ma. reflexivity.
+      + reflexivity.
+      + cbn. lia.
+      + apply inv_set_stack_sub; [exact Hi1|]. destruct Hi1 as [[Hst _] _]. rewrite Hs1 in Hst. cbn in Hst.
+        apply andb_true_iff in Hst. destruct Hst as [Hb' Hst]. apply andb_true_iff in Hst. destruct Hst as [Ha' Hst].
+        cbn. rewrite Ha', Hb', Hst. reflexivity.
+    - (* TUPLE3 *) destruct (Nat.eqb (List.length xs) 3) eqn:El; [|discriminate]. apply Nat.eqb_eq in El.
+      rewrite El in Hlen. destruct os as [|a [|b [|c [|d os']]]]; try discriminate.
+      cbn in Hm1. apply orb_false_iff in Hm1. destruct Hm1 as [Ma Hm1]. apply orb_false_iff in Hm1. destruct Hm1 as [Mb Hm1].
+      apply orb_false_iff in Hm1. destruct Hm1 as [Mc _].
+      set (st2 := set_stack st1 (OTuple [a; b; c] :: stack st)).
+      apply (Hfin cs1 p1 st2 [a; b; c]); try assumption.
+      + rewrite Hr1. apply run_step_next. cbn [step]. rewrite Hs1. cbn [rev app pop1]. rewrite Mc. cbn [pop1]. rewrite Mb.
+        cbn [pop1]. rewrite Ma. reflexivity.
+      + reflexivity.
+      + cbn. lia.
+      + apply inv_set_stack_sub; [exact Hi1|]. destruct Hi1 as [[Hst _] _]. rewrite Hs1 in Hst. cbn in Hst.
+        apply andb_true_iff in Hst. destruct Hst as [Hc' Hst]. apply andb_true_iff in Hst. destruct Hst as [Hb' Hst].
+        apply andb_true_iff in Hst. destruct Hst as [Ha' Hst].
+        cbn. rewrite Ha', Hb', Hc', Hst. reflexivity. }
+  destruct p; try (apply Hsmall; exact H).
+  - (* MARK: the tuple's own mark, or the first member's *)
+    destruct (seq_gen chk xs cs r) as [[cs1 pp]|] eqn:Es; [|apply Hsmall; exact H].
+    destruct pp as [|q p1]; [apply Hsmall; exact H|]. destruct q; try (apply Hsmall; exact H).
+    assert (Hi0 : inv cs (push OMark st)) by (apply inv_push; [exact Hinv | reflexivity]).
+    destruct (seq_sound w chk xs HF cs r cs1 _ (push OMark st) Es Hi0) as [os [st1 [Hr1 [Hs1 [Hd1 [Hm1 [Hc1 [Hi1 Hn1]]]]]]]].
+    set (st2 := set_stack st1 (OTuple os :: stack st)).
+    apply (Hfin cs1 p1 st2 os); try assumption.
+    + rewrite (run_step_next w st MARK (push OMark st) r eq_refl), Hr1. apply run_step_next.
+      cbn [step]. unfold with_mark. rewrite Hs1. cbn [push set_stack stack]. rewrite (to_mark_rev os _ Hm1). reflexivity.
+    + reflexivity.
+    + cbn in *. lia.
+    + apply inv_set_stack_sub; [exact Hi1|]. destruct Hi1 as [[Hst _] _]. rewrite Hs1 in Hst. cbn [push set_stack stack] in Hst.
+      apply forallb_app_split in Hst. destruct Hst as [Ho Hst]. rewrite forallb_rev' in Ho. cbn in Hst.
+      cbn [forallb ids_below]. rewrite Ho. exact Hst.
+  - (* EMPTY_TUPLE *)
+    destruct xs as [|x xs']; [|discriminate].
+    apply (pushed_then_put w (PTuple []) cs EMPTY_TUPLE r cs' rest st (push (OTuple []) st) (OTuple [])); try reflexivity; try assumption.
+    + cbn. lia.
+    + apply inv_push; [exact Hinv | reflexivity].
 Qed.
